@@ -14,10 +14,10 @@ import (
 func init() {
 	register(&Rule{ID: "C07.CONV", Min: 2, Doc: "placeholder-relative positions are mapped onto the scalar by base + value - 1", Run: runC07Conv})
 	register(&Rule{ID: "C07.ACCUM", Min: 4, Doc: "the column base of each placeholder equals the number of bytes sliced off before it", Run: runC07Accum})
-	register(&Rule{ID: "C07.QUOTE", Min: 3, Doc: "a column derived from a scalar's position is advanced by one iff the scalar is quoted, once", Run: runC07Quote})
+	register(&Rule{ID: "C07.QUOTE", Min: 8, Doc: "a column derived from a scalar's position is advanced by one iff the scalar is quoted, once", Run: runC07Quote})
 	register(&Rule{ID: "C07.FIELDS", Min: 12, Doc: "line, column and offset are copied field to field of the same meaning", Run: runC07Fields})
 	register(&Rule{ID: "C07.ARGS", Min: 8, Doc: "line and column arguments are passed in the order of the callee's parameters", Run: runC07Args})
-	register(&Rule{ID: "C07.TOKEN", Min: 12, Doc: "a node is reported at its own token or at the token of its leftmost operand", Run: runC07Token})
+	register(&Rule{ID: "C07.TOKEN", Min: 20, Doc: "a node is reported at its own token or at the token of its leftmost operand; the token kept in a node is the first token of what was parsed", Run: runC07Token})
 	register(&Rule{ID: "C07.ERRTOK", Min: 8, Doc: "a syntax error is positioned at the look-ahead token at which parsing stopped", Run: runC07ErrTok})
 	register(&Rule{ID: "C07.LEXPOS", Min: 6, Doc: "a token starts where the previous token or white space ended", Run: runC07LexPos})
 	register(&Rule{ID: "C07.ORIGIN", Min: 3, Doc: "every position object is built from a YAML node's line/column or from position arithmetic", Run: runC07Origin})
@@ -493,6 +493,7 @@ func isQuotedCondDepth(v ssa.Value, depth int) bool {
 
 func runC07Quote(c *Ctx) {
 	p := c.P
+	defer c07GlobColumn(c)
 	// (a) SSA form: the column handed to the expression machinery
 	type site struct {
 		fn   string
@@ -870,6 +871,8 @@ func runC07Token(c *Ctx) {
 		c.anchorMissing("type ExprNode")
 		return
 	}
+	ownTok := map[string]bool{} // "Type.tok" fields returned by Token()
+	defer func() { c07TokenOrigins(c, ownTok) }()
 	for _, fn := range p.Funcs {
 		if fn.Name() != "Token" || fn.Signature.Recv() == nil || fn.Parent() != nil || fn.Synthetic != "" {
 			continue
@@ -899,6 +902,7 @@ func runC07Token(c *Ctx) {
 		}
 		if f, _ := fieldLoad(ret); f != "" && strings.HasSuffix(f, ".tok") {
 			c.ok(construct, fn.Pos(), "its own first token")
+			ownTok[f] = true
 			continue
 		}
 		if call, ok := ret.(*ssa.Call); ok && call.Call.IsInvoke() && call.Call.Method.Name() == "Token" {
